@@ -258,7 +258,8 @@ Fixpoint enc_prog (s : state) (os : list op) : list Z * Z :=
       if run_mode s then
         let x := step s o in
         let '(l, k) := enc_prog (st x) r in
-        (1 :: match rs_ x with Err e => e | _ => 0 end :: enc_bool (protected (st x)) :: l,
+        (1 :: match rs_ x with Err e => e | _ => 0 end
+           :: enc_bool (protected (st x) && run_mode (st x)) :: l,   (* F%(i) is only assigned if the program goes on *)
          comb (leak_class (ob x)) k)
       else let '(l, k) := enc_prog s r in (0 :: 0 :: 0 :: l, k)
   end.
